@@ -153,10 +153,11 @@ namespace nmtools::utl
         vector(size_type N)
             : allocator{}
             , buffer_(allocator.allocate(N))
-            , size_(N)
+            , size_(0)
             , buffer_size_(N)
             , initialized(true)
         {
+            // resize value-initializes the elements
             resize(N);
         }
         vector(const vector& other)
@@ -224,6 +225,11 @@ namespace nmtools::utl
                 buffer_ = new_buffer;
             } else {
                 // not invalidating the value, for now
+            }
+            // like std::vector, new elements are value-initialized
+            // (the buffer may hold stale values from before a shrink)
+            for (size_type i=old_size; i<new_size; i++) {
+                new (buffer_+i) T{};
             }
         }
 
